@@ -2,16 +2,38 @@
 from checks import pfcp_common as pc
 
 MANIFEST = dict(
-    text="Kernel-checked for the PFCP layer: push appends iff the queue is below capacity (BUFFQ_LEN from T-gen), otherwise the NEWEST packet is dropped and nothing else changes; other PDRs' queues and all other session fields are untouched; a buffer item pushes iff BUFF and the packet is non-empty, a Downlink Data Report is sent iff NOCP, to the owning node with the peer's SEID; Close drops the queues; no per-session rule operation touches a queue; in every reachable state every queue holds at most BUFFQ_LEN packets. PARTIAL: the release path (BUFF->FORW/DROP in Gtp5g.applyAction, encapsulation) lives in the gtp5g driver and needs the simulated kernel - not yet covered. Tie: differential run incl. bursts beyond the capacity; queue-content monitor.",
+    text="Kernel-checked for the PFCP layer: push appends iff the queue is below capacity (BUFFQ_LEN from T-gen), otherwise the NEWEST packet is dropped and nothing else changes; other PDRs' queues and all other session fields are untouched; a buffer item pushes iff BUFF and the packet is non-empty, a Downlink Data Report is sent iff NOCP, to the owning node with the peer's SEID; Close drops the queues; no per-session rule operation touches a queue; in every reachable state every queue holds at most BUFFQ_LEN packets. Release path (Gtp5g.UpdateFAR/applyAction/WritePacket, model/Release.v, after fix 6f99407): on BUFF->FORW every queued packet of every PDR the data plane relates to the FAR is emitted exactly once, in queue order, as the G-PDU of C14 with the FAR's UPDATED peer/port/TEID and the PDR's first non-zero QFI (the reference decoder reads back teid, qfi and payload), afterwards those queues are empty; BUFF->DROP empties them without emission; otherwise nothing leaves and no queue changes; nothing survives the session. Tie: differential run incl. bursts beyond the capacity + queue-content monitor; full-stack release scenarios (real PfcpServer + real Gtp5g over the simulated kernel, BUFFER multicasts through the real netlink listener, two fake gNB sockets) compared step by step with the model, plus a monitor on the gNB datagrams.",
     note='Partial: release/encapsulation path (driver) not covered yet. ',
     technique="Coq lemmas on the emission / queue / reference-count functions + differential run + trace monitor",
     design='4/C13')
 
 RULE = 'buffer notifications for live / unknown / ended sessions, BUFF/NOCP/DROP/FORW action combinations, bursts of 511/512/513/700 packets in one batch, session removal and SEID re-use'
 GEN = dict(weights=dict(dld=34, est=14, mod=10, dele=10, asr=6, srr=8, usa=2), big_seids=False)
-N_QUICK, N_THOROUGH = 110, 3000
+N_QUICK, N_THOROUGH = 80, 3000
+
+
+def release_phase(ctx, info, coverage):
+    """second half of C13: the release path through the real Gtp5g driver over the simulated kernel"""
+    from checks import release_phase as rp
+    r = rp.run(ctx, info["harness"], 40 if ctx.tier == "quick" else 1500)
+    if r.get("error"):
+        ctx.violation({"property": "C13", "broken": r["error"]}, no_input=True)
+        return
+    coverage["release_scenarios"] = len(r["cases"])
+    coverage["release_model_impl_disagreements"] = len(r["mism"])
+    coverage["release_monitor_failures"] = len(r["monf"])
+    coverage["evaluations"] = coverage.get("evaluations", 0) + len(r["cases"])
+    for ci, si in r["monf"][:2]:
+        ctx.violation({"property": "C13", "what": "release path: a datagram at the gNB is not a well-formed G-PDU carrying a packet that was "
+                       "buffered earlier and not yet emitted, or the server faulted / a queue exceeds its capacity (step %d)" % si,
+                       "mode": "release", "case": r["cases"][ci], "implementation_trace": r["impl"][ci]})
+    if not r["monf"] and r["mism"]:
+        ci, si = r["mism"][0]
+        ctx.violation({"property": "C13", "correspondence": "model/Release.v step <> implementation at step %d (datagrams per gNB, "
+                       "downlink data reports or queue contents differ)" % si, "mode": "release", "case": r["cases"][ci],
+                       "implementation_trace": r["impl"][ci][max(0, si - 2):si + 1]}, no_input=True)
 
 
 def run(ctx, replay=None):
     return pc.run_property(ctx, "C13", pc.mon_c13, GEN, N_QUICK, N_THOROUGH, replay=replay, rule=RULE,
-                           assumptions=[pc.PFCP_NOTE], finding_sig=None, directed=pc.directed_c13)
+                           assumptions=[pc.PFCP_NOTE], finding_sig=None, directed=pc.directed_c13, extra_phase=release_phase)
